@@ -423,7 +423,7 @@ fn reg_base() -> crate::registry::RegWorld {
   }
 }
 
-const REG_FAULTS: &[&str] = &["missing", "error", "malformed", "redirect", "external", "wrong-bytes", "tampered-cache", "final-in-registry"];
+const REG_FAULTS: &[&str] = &["missing", "error", "malformed", "redirect", "external", "wrong-bytes", "tampered-cache", "final-in-registry", "moved-module"];
 
 fn apply_reg_fault(loader: &mut crate::registry::RegLoader, url: &str, kind: &str) {
   use crate::registry::*;
@@ -436,6 +436,18 @@ fn apply_reg_fault(loader: &mut crate::registry::RegLoader, url: &str, kind: &st
     let target = file_url("@s/a", "1.1.0", "/mod.ts");
     if let Some(t) = loader.served.get(&target).cloned() {
       loader.served.insert(url.to_string(), Served { final_spec: Some(target), ..t });
+    }
+    return;
+  }
+  if kind == "moved-module" {
+    // a package file answered with its bytes under another final specifier (an implicit redirect):
+    // whenever the build asks for it - as a module load or as the late load of the content of a module
+    // known from the manifest - that is a redirect inside a package, an error entry
+    if !url.starts_with(REG) || url.ends_with("meta.json") {
+      return;
+    }
+    if let Some(s) = loader.served.get_mut(url) {
+      s.final_spec = Some(format!("{}.moved.ts", url));
     }
     return;
   }
@@ -485,7 +497,12 @@ fn reg_check(report: &mut Report, w: &crate::registry::RegWorld, faults: &[(Stri
   use crate::registry::*;
   let mut loader = RegLoader::new(w);
   // (a fault kind that does not apply to a URL is no fault)
-  let faults: Vec<(String, &str)> = faults.iter().filter(|(u, k)| !(*k == "final-in-registry" && u.starts_with(REG))).cloned().collect();
+  let faults: Vec<(String, &str)> = faults
+    .iter()
+    .filter(|(u, k)| !(*k == "final-in-registry" && u.starts_with(REG)))
+    .filter(|(u, k)| !(*k == "moved-module" && (!u.starts_with(REG) || u.ends_with("meta.json"))))
+    .cloned()
+    .collect();
   let faults = &faults[..];
   for (u, k) in faults {
     apply_reg_fault(&mut loader, u, k);
@@ -519,6 +536,12 @@ fn reg_check(report: &mut Report, w: &crate::registry::RegWorld, faults: &[(Stri
         }
         // a tampered cache entry is only seen by loads that may use the cache (all module loads do)
         let s = ModuleSpecifier::parse(u).unwrap();
+        // a registry URL imported as an ordinary https module (not through its package) may be moved
+        // like any other remote module: then the move is recorded as a redirect
+        if *k == "moved-module" && g.redirects.get(&s).map(|t| t.as_str() == format!("{}.moved.ts", u)).unwrap_or(false) {
+          report.count("registry-fault-hit:moved-module:ordinary-remote-module-redirected");
+          continue;
+        }
         if !matches!(g.try_get(&s), Err(_)) {
           report.fail("oracle", "fault-without-error-entry", format!("{}: {} answered {} but its entry is not an error", label, u, k), desc.clone());
         }
@@ -678,7 +701,7 @@ fn registry_faults(report: &mut Report, tier: &str, rng: &mut Rng) {
         }
       }
     }
-    report.exhaustive.push(format!("registry base world variant {}: every single fault of 8 kinds on each of {} URLs the build (or a probe) asks for", variant, urls.len()));
+    report.exhaustive.push(format!("registry base world variant {}: every single fault of 9 kinds on each of {} URLs the build (or a probe) asks for", variant, urls.len()));
   }
   // generated registry worlds with faults
   let n = if tier == "thorough" { 6000 } else { 800 };
